@@ -21,7 +21,7 @@ RULE = ("A: packet histories at one station (distinct by hash of the event list)
         "hop limit, origin); non-trivial = at least one duplicate or forward was observed and judged.")
 ASSUMPTIONS = ["a replay outside the DPL window may legitimately be delivered/forwarded again: the model tracks the ring exactly",
                "omitted forwards (PDR limit, area-size control, SCF stub) are allowed: at-most-once is an upper bound"]
-REQUIRED_COUNTERS = ["A.forward_copies_compared[no-neighbour,scf]", "A.cbf_overheard_judged", "A.cbf_overheard_after_leaving_the_area", "A.duplicates_judged", "A.forward_copies_compared", "A.rhl01_judged", "A.own_address_judged", "B.floods",
+REQUIRED_COUNTERS = ["A.cbf_rebuffer_judged", "A.forward_copies_compared[no-neighbour,scf]", "A.cbf_overheard_judged", "A.cbf_overheard_after_leaving_the_area", "A.duplicates_judged", "A.forward_copies_compared", "A.rhl01_judged", "A.own_address_judged", "B.floods",
                      "B.station_packet_pairs", "B.cbf_overheard_judged"]
 
 KINDS = ("tsb", "gbc_in", "gbc_out", "gac_in", "gac_out", "guc_other", "guc_me", "ls_req_other", "ls_rep_other")
@@ -246,9 +246,71 @@ def run_a_case(c, res):
                     res.violation(f"C06:forwarded-copy-differs[{kind}][{nm}][de={p['de']}]", f"received {raw.hex()} forwarded {got.hex()} expected {want.hex()}", ctx)
 
 
+def run_rebuffer_case(c, res):
+    """Contention-based forwarding, directed: packet P is buffered, its duplicate is overheard (the copy is dropped), other
+    packets of the same source push P's sequence number out of a short duplicate list, then P arrives again and is
+    buffered anew -- all within one contention window.  The first instance was cancelled: the only transmission of P
+    allowed is the SECOND instance's copy (one hop below what was received the second time), exactly once."""
+    from vf.gnharness import World, mid_of
+    from vf.vclock import tst_of
+    from flexstack.geonet.mib import AreaForwardingAlgorithm
+    with World() as w:
+        A = w.add("A", mid_of(1), lat=MY_LAT, lon=MY_LON, ports=(2001,),
+                  mib_over={"itsGnAreaForwardingAlgorithm": AreaForwardingAlgorithm.CBF, "itsGnDPLLength": c["dpl"]})
+        N = w.add("N", mid_of(2), lat=MY_LAT + 900, lon=MY_LON + 900, ports=(2001,))
+        N.router.gn_data_request_beacon()
+        w.settle()
+        w.ether.nodes.pop("N")
+        w.clock.advance(1.0)
+        me = {"addr": {"m": 0, "st": 5, "mid": mid_of(1)}, "tst": 1, "lat": MY_LAT, "lon": MY_LON}
+        so_pv = {"addr": {"m": 0, "st": 5, "mid": mid_of(60)}, "tst": tst_of(w.clock.now() - 0.2), "lat": MY_LAT - 2000, "lon": MY_LON, "pai": 1, "s": 0, "h": 0}
+        tx0 = len(w.ether.wire)
+
+        def pkt(sn, rhl, tag):
+            return mk_packet("gbc_in", sn, rhl, so_pv, me, me, 0, b"\x07\xd1\x00\x00" + tag)
+        step = c["gap_ms"] / 1000.0
+        w.ether.inject("A", pkt(100, c["rhl_a"], b"P"))
+        w.settle()
+        w.clock.advance(step)
+        w.ether.inject("A", pkt(100, max(1, c["rhl_a"] - 1), b"P"))          # overheard duplicate: instance 1 is cancelled
+        w.settle()
+        for j in range(c["dpl"]):                                          # pushes SN 100 out of the duplicate list
+            w.clock.advance(step)
+            w.ether.inject("A", pkt(101 + j, 7, b"Q%d" % j))
+            w.settle()
+        w.clock.advance(step)
+        early = [pp for (_, _, s_, pp) in w.ether.wire[tx0:] if s_ == "A"]
+        w.ether.inject("A", pkt(100, c["rhl_b"], b"P"))                     # P again: a new packet as far as the station can tell
+        w.settle()
+        w.clock.advance(0.5)
+        w.settle()
+        if w.ether.errors:
+            e = w.ether.errors[0][3]
+            res.violation(f"C06:reception-raises-{type(e).__name__}[gbc_in]", f"{e!r}", c)
+            return
+        res.count("A.cbf_rebuffer_judged")
+        sent_p = [pp for (_, _, s_, pp) in w.ether.wire[tx0:] if s_ == "A" and pp.endswith(b"P")]
+        if any(pp.endswith(b"P") for pp in early):
+            res.violation("C06:cbf-buffered-copy-sent-after-duplicate-overheard", "the cancelled first instance was transmitted before the packet arrived again", c)
+            return
+        rhls = [pp[3] for pp in sent_p]
+        if len(sent_p) > 1:
+            res.violation("C06:forwarded-more-than-once[gbc_in][re-buffered-after-cancellation]", f"{len(sent_p)} transmissions, RHLs {rhls}", c)
+        elif len(sent_p) == 1 and rhls[0] != c["rhl_b"] - 1:
+            res.violation("C06:cbf-cancelled-copy-transmitted[re-buffered-after-cancellation]",
+                          f"transmitted RHL {rhls[0]}: the copy of the cancelled first instance (received RHL {c['rhl_a']}), not the one buffered anew (received RHL {c['rhl_b']})", c)
+        elif not sent_p:
+            res.violation("C06:cbf-rebuffered-copy-never-transmitted[re-buffered-after-cancellation]",
+                          "the second instance was removed from the buffer without being transmitted and without a duplicate", c)
+
+
 def run_a(spec, res):
     rng = random.Random(spec["seed"])
     for k in range(spec["cases"]):
+        if k % 6 == 5:
+            cr = {"part": "A-rebuffer", "dpl": rng.choice((1, 2, 3)), "rhl_a": rng.choice((5, 9, 200)), "rhl_b": rng.choice((3, 4, 120)), "gap_ms": rng.choice((0.5, 1, 3))}
+            run_rebuffer_case(cr, res)
+            res.case(repr(cr))
         c = gen_a(rng)
         run_a_case(c, res)
         res.case(repr(c))
@@ -415,4 +477,7 @@ def run_shard(spec, res):
 
 
 def replay(case, res):
+    if case.get("part") == "A-rebuffer":
+        run_rebuffer_case(case, res)
+        return
     (run_a_case if case.get("part") == "A" else run_b_case)(case, res)
